@@ -4,6 +4,7 @@ import (
 	"bufio"
 	"encoding/json"
 	"fmt"
+	"github.com/blugelabs/bluge/index/mergeplan"
 	"os"
 	"os/exec"
 	"runtime/debug"
@@ -92,7 +93,14 @@ func reopenWriter(path string, ids []string) (res ReopenResult) {
 		return
 	}
 	defer os.RemoveAll(tmp)
-	w, err := bluge.OpenWriter(cfgFor(tmp, false))
+	// no merges in the recovered writer: whether its first batch is accepted must not depend on a race with its merger
+	wcfg := cfgFor(tmp, false)
+	ic := wcfg.VerifIndexConfig()
+	mo := mergeplan.DefaultMergePlanOptions
+	mo.CalcBudget = func(int64, int64, *mergeplan.Options) int { return 1 << 20 }
+	ic.MergePlanOptions = mo
+	ic.MinSegmentsForInMemoryMerge = 1 << 20
+	w, err := bluge.OpenWriter(wcfg.VerifWithIndexConfig(ic))
 	if err != nil {
 		res.Err = err.Error()
 		return
